@@ -120,6 +120,20 @@ func enumerateCbor(tier string, shard, n int, timeUp func() bool, emit func(p se
 	for _, a := range A {
 		at([]seqx.Field{seqx.Rekey(a, 0)}, sites, []seqx.Entry{entryInfo, entryLog}, []seqx.Final{msgM, msgNasty, send})
 	}
+	// every single byte value as text, key, []byte and Hex (the decoder's escape and hex tables have one entry each)
+	{
+		all := make([]byte, 256)
+		evSites := pickSites(sites, "event", "array")
+		for b := 0; b < 256; b++ {
+			all[b] = byte(b)
+			s := "a" + string([]byte{byte(b)}) + "b"
+			at([]seqx.Field{{M: "Str", Key: "k", Val: s}}, evSites, []seqx.Entry{entryLog}, []seqx.Final{send})
+			at([]seqx.Field{{M: "Str", Key: s, Val: "v"}}, evSites[:1], []seqx.Entry{entryLog}, []seqx.Final{send})
+			at([]seqx.Field{{M: "Bytes", Key: "k", Val: []byte(s)}}, evSites, []seqx.Entry{entryLog}, []seqx.Final{send})
+			at([]seqx.Field{{M: "Hex", Key: "k", Val: []byte{byte(b)}}}, evSites, []seqx.Entry{entryLog}, []seqx.Final{send})
+		}
+		at([]seqx.Field{{M: "Hex", Key: "k", Val: all}, {M: "Bytes", Key: "k2", Val: all}}, evSites[:1], []seqx.Entry{entryLog}, []seqx.Final{send})
+	}
 	for _, f := range lenBoundaryFields() {
 		at([]seqx.Field{f}, pickSites(sites, "event", "context", "dict", "array", "fieldsslice"), []seqx.Entry{entryLog}, []seqx.Final{send})
 	}
